@@ -37,6 +37,7 @@ package classifier
 //@   ensures threshold == 1.0 ==> result == 10
 //@   ensures threshold == 0.8 ==> result == 4
 //@   ensures threshold >= 0.7 ==> result >= 2
+//@   ensures [floor-of-ratio] threshold < 1.0 ==> (result == 1 && threshold / (1.0 - threshold) < 2.0) || (result >= 1 && float64(result) <= threshold / (1.0 - threshold) && threshold / (1.0 - threshold) < float64(result) + 1.0)
 //@   props C01 C10
 //
 // ---------------------------------------------------------------- diff.go
